@@ -416,3 +416,46 @@ def static_helpers(src, exclude=()):
             continue
         out.append(Slice("static helper " + m.group(1), src, m.start(), src.match_brace(b)))
     return out
+
+
+def yacc_rule(src, name):
+    """Alternatives of a bison rule `name: alt | alt ... ;` as lists of items: ("sym", text) for grammar symbols
+    (identifiers and character literals), ("act", text) for action blocks (braces included), ("prec", text)."""
+    s, e = src.find_unique(r"^%s\s*:" % re.escape(name), what="rule " + name)
+    i = e
+    n = len(src.text)
+    alts, cur = [], []
+    while i < n:
+        if src.mask[i] != "c":
+            i += 1
+            continue
+        ch = src.text[i]
+        if ch == "{":
+            j = src.match_brace(i)
+            cur.append(("act", src.text[i:j]))
+            i = j
+        elif ch == "'":
+            j = i + 1
+            while src.mask[j] != "c":
+                j += 1
+            cur.append(("sym", src.text[i:j + 1]))
+            i = j + 1
+        elif ch == "|":
+            alts.append(cur); cur = []
+            i += 1
+        elif ch == ";":
+            alts.append(cur)
+            return Slice("rule " + name, src, s, i + 1), alts
+        elif ch == "%":
+            m = re.match(r"%prec\s+(\S+)", src.text[i:])
+            if not m:
+                raise ExtractionBroken(f"rule {name}: unexpected directive")
+            cur.append(("prec", m.group(1)))
+            i += m.end()
+        elif ch.isalpha() or ch == "_":
+            m = re.match(r"\w+", src.text[i:])
+            cur.append(("sym", m.group(0)))
+            i += m.end()
+        else:
+            i += 1
+    raise ExtractionBroken(f"rule {name}: unterminated")
